@@ -17,6 +17,10 @@ pub trait Elem:
     fn same(self, other: Self) -> bool {
         self == other
     }
+    /// the same value bit for bit (floats: sign of zero, NaN payload)
+    fn ident(self, other: Self) -> bool {
+        self == other
+    }
     const IS_INT: bool;
     /// float element types: the value as f64 (exact) - `None` for the integer types
     fn as_float(self) -> Option<f64> {
@@ -55,6 +59,9 @@ impl Elem for f64 {
     }
     fn same(self, other: Self) -> bool {
         self == other || (self.is_nan() && other.is_nan())
+    }
+    fn ident(self, other: Self) -> bool {
+        self.to_bits() == other.to_bits()
     }
     const IS_INT: bool = false;
     fn as_float(self) -> Option<f64> {
@@ -110,6 +117,9 @@ impl Elem for f32 {
     }
     fn same(self, other: Self) -> bool {
         self == other || (self.is_nan() && other.is_nan())
+    }
+    fn ident(self, other: Self) -> bool {
+        self.to_bits() == other.to_bits()
     }
     const IS_INT: bool = false;
     fn as_float(self) -> Option<f64> {
@@ -235,6 +245,373 @@ impl<T: Elem> Grid<T> {
     }
 }
 
+
+// ------------------------------------------------------------------------------------------ object histories
+//
+// Nothing in the statement depends on HOW an operand came to be: "the multiplication operator agrees with the
+// checked product on every operand-ownership combination" speaks about values.  An implementation, however, sees
+// more than the values - the capacity of the hidden buffer (spare after the padding path of `from_flat`, possibly
+// after `clone_from` into a larger object), whether an operand is consumed (owned forms may reuse its buffer) -
+// so every product / scalar request is repeated, oracle-only, on operands built through EVERY constructor and
+// conversion of the public API, and the ORIGINAL objects (never clones of them, a clone sheds the history) are moved
+// into / borrowed by all four operator forms.  Every result must be the one the plainly built operands give.
+
+#[derive(Clone, Copy, Debug, PartialEq)]
+enum Hist {
+    /// `Arr2D::full` + writes through the tuple index (how the printed observation is made)
+    Full,
+    /// `from_flat` with exactly h*w items
+    Flat,
+    /// `from_flat` with the first `given` items only (padding path: spare capacity), the rest written through the row index
+    Padded(usize),
+    /// `from_flat` with the shortest prefix whose padding value (the last item) reproduces the tail: no writes at all
+    PaddedTail,
+    /// `TryFrom<Vec<Vec<T>>>` (also the only way to an h x 0 array besides `full`)
+    Nested,
+    /// `TryFrom<&Vec<Vec<T>>>`
+    NestedRef,
+    /// `From<&[[T; N]; M]>` (shapes up to 5 x 5, also 0 x N)
+    Literal,
+    /// `map` of an index array
+    Map,
+    /// copying transpose of the transposed contents (0 x N from N empty rows)
+    Transposed,
+    /// padded 1 x (h*w) row, then `reshape(h)`: the padded buffer under another shape
+    PaddedReshaped(usize),
+    /// padded, then two row swaps and every row rewritten through `rows_mut` (the padded buffer after in-place work)
+    PaddedSwapped(usize),
+    /// `clone()` of a padded array
+    CloneOfPadded,
+    /// `clone_from` into an existing LARGER array
+    CloneFromBig,
+    /// `clone_from` into an existing larger array that itself came from the padding path
+    CloneFromPaddedBig,
+    /// `TryFrom<&Arr2D<T>>`
+    ConvRef,
+    /// the result object of a product (identity . a)
+    ProductResult,
+    /// the result object of a scalar multiplication (a * 1)
+    ScalarResult,
+    /// `full(default)` then every row written through `rows_mut`
+    RowsMut,
+}
+
+fn from_array_lit<T: Elem, const M: usize, const N: usize>(g: &Grid<T>) -> Arr2D<T> {
+    let mut a = [[T::default(); N]; M];
+    for r in 0..M {
+        for c in 0..N {
+            a[r][c] = g.at(r, c);
+        }
+    }
+    Arr2D::from(&a)
+}
+macro_rules! lit_cols {
+    ($t:ty, $m:literal, $g:expr) => {
+        match $g.w {
+            0 => from_array_lit::<$t, $m, 0>($g),
+            1 => from_array_lit::<$t, $m, 1>($g),
+            2 => from_array_lit::<$t, $m, 2>($g),
+            3 => from_array_lit::<$t, $m, 3>($g),
+            4 => from_array_lit::<$t, $m, 4>($g),
+            _ => from_array_lit::<$t, $m, 5>($g),
+        }
+    };
+}
+
+impl<T: Elem> Grid<T> {
+    fn rows(&self) -> Vec<Vec<T>> {
+        (0..self.h).map(|i| self.v[i * self.w..(i + 1) * self.w].to_vec()).collect()
+    }
+    /// bit-for-bit the same contents (floats: the sign of zero and NaN-ness too)
+    fn identical(&self, o: &Self) -> bool {
+        self.h == o.h && self.w == o.w && self.v.len() == o.v.len() && self.v.iter().zip(&o.v).all(|(a, b)| a.ident(*b))
+    }
+    fn padded(&self, given: usize, h: usize, w: usize) -> Option<Arr2D<T>> {
+        let n = self.v.len();
+        if n == 0 || given >= n || h * w != n {
+            return None;
+        }
+        let mut a = Arr2D::from_flat(&self.v[..given], T::default(), h, w).ok()?;
+        for idx in given..n {
+            a[idx / w][idx % w] = self.v[idx];
+        }
+        Some(a)
+    }
+    /// the contents of `self` as an object with the given history; `None`: that route cannot produce this shape /
+    /// these values (or does not reproduce them bit for bit - construction itself is the business of C12)
+    fn build(&self, kind: Hist) -> Option<Arr2D<T>> {
+        let built = self.build_raw(kind)?;
+        if built.shape() == (self.h, self.w) && built.size() == self.h * self.w && Grid::of_arr(&built).identical(self) { Some(built) } else { None }
+    }
+    fn build_raw(&self, kind: Hist) -> Option<Arr2D<T>> {
+        let (h, w, n) = (self.h, self.w, self.h * self.w);
+        catch(|| -> Option<Arr2D<T>> {
+            match kind {
+                Hist::Full => Some(self.to_arr()),
+                Hist::Flat => {
+                    if n == 0 {
+                        return None;
+                    }
+                    Arr2D::from_flat(self.v.clone(), T::default(), h, w).ok()
+                }
+                Hist::Padded(given) => self.padded(given, h, w),
+                Hist::PaddedTail => {
+                    if n == 0 {
+                        return None;
+                    }
+                    let last = self.v[n - 1];
+                    let given = (0..n).rev().find(|i| !self.v[*i].ident(last)).map(|i| i + 1).unwrap_or(0);
+                    Arr2D::from_flat(&self.v[..given], last, h, w).ok()
+                }
+                Hist::Nested => {
+                    if h == 0 && w > 0 {
+                        return None;
+                    }
+                    Arr2D::try_from(self.rows()).ok()
+                }
+                Hist::NestedRef => {
+                    if h == 0 && w > 0 {
+                        return None;
+                    }
+                    Arr2D::<T>::try_from(&self.rows()).ok()
+                }
+                Hist::Literal => {
+                    if h > 5 || w > 5 {
+                        return None;
+                    }
+                    Some(match h {
+                        0 => lit_cols!(T, 0, self),
+                        1 => lit_cols!(T, 1, self),
+                        2 => lit_cols!(T, 2, self),
+                        3 => lit_cols!(T, 3, self),
+                        4 => lit_cols!(T, 4, self),
+                        _ => lit_cols!(T, 5, self),
+                    })
+                }
+                Hist::Map => {
+                    let mut idx = Arr2D::full(0usize, h, w);
+                    for i in 0..h {
+                        for j in 0..w {
+                            idx[(i, j)] = i * w + j;
+                        }
+                    }
+                    Some(idx.map(|k| self.v[*k]))
+                }
+                Hist::Transposed => {
+                    let t = self.transposed();
+                    // a w x 0 array (w rows without items) comes from the nested constructor, its transpose is 0 x w
+                    let ta = if t.w == 0 && t.h > 0 { Arr2D::try_from(t.rows()).ok()? } else { t.to_arr() };
+                    Some(ta.transpose())
+                }
+                Hist::PaddedReshaped(given) => {
+                    let mut a = self.padded(given, 1, n)?;
+                    a.reshape(h).ok()?;
+                    Some(a)
+                }
+                Hist::PaddedSwapped(given) => {
+                    let mut a = self.padded(given, h, w)?;
+                    if h >= 2 {
+                        a.swap_rows(0, h - 1);
+                        a.swap_rows(h - 1, 0);
+                    }
+                    for (i, row) in a.rows_mut().enumerate() {
+                        row.copy_from_slice(&self.v[i * w..(i + 1) * w]);
+                    }
+                    Some(a)
+                }
+                Hist::CloneOfPadded => Some(self.padded(n.checked_sub(1)?, h, w)?.clone()),
+                Hist::CloneFromBig => {
+                    let mut d = Arr2D::full(T::one(), h + 2, w + 3);
+                    d.clone_from(&self.to_arr());
+                    Some(d)
+                }
+                Hist::CloneFromPaddedBig => {
+                    let big = (h + 1) * (w + 2);
+                    let mut d = Arr2D::from_flat(vec![T::one(); big / 2 + 1], T::default(), h + 1, w + 2).ok()?;
+                    d.clone_from(&self.to_arr());
+                    Some(d)
+                }
+                Hist::ConvRef => Arr2D::<T>::try_from(&self.to_arr()).ok(),
+                Hist::ProductResult => ident::<T>(h).dot(&self.to_arr()).ok(),
+                Hist::ScalarResult => Some(&self.to_arr() * T::one()),
+                Hist::RowsMut => {
+                    let mut a = Arr2D::full(T::default(), h, w);
+                    for (i, row) in a.rows_mut().enumerate() {
+                        row.copy_from_slice(&self.v[i * w..(i + 1) * w]);
+                    }
+                    Some(a)
+                }
+            }
+        })?
+    }
+    /// the histories tried for this shape: all of them for the operand that an owned form may consume (`wide`), the
+    /// ones that differ in capacity / container for the other operand
+    fn plans(&self, wide: bool, cheap: bool) -> Vec<Hist> {
+        let n = self.h * self.w;
+        if cheap {
+            // large operands: the routes that differ in capacity only
+            let mut p = if wide { vec![Hist::Full, Hist::Flat, Hist::PaddedTail, Hist::Nested, Hist::CloneFromBig] } else { vec![Hist::Full] };
+            for g in [n / 2, n / 2 + 1, n.saturating_sub(1)] {
+                if g < n && (wide || g + 1 == n) && !p.contains(&Hist::Padded(g)) {
+                    p.push(Hist::Padded(g));
+                }
+            }
+            return p;
+        }
+        if !wide {
+            let mut p = vec![Hist::Full, Hist::PaddedTail, Hist::Nested, Hist::CloneFromBig];
+            for g in [n / 2 + 1, n.saturating_sub(1)] {
+                if g < n && !p.contains(&Hist::Padded(g)) {
+                    p.push(Hist::Padded(g));
+                }
+            }
+            return p;
+        }
+        let mut p = vec![
+            Hist::Full, Hist::Flat, Hist::PaddedTail, Hist::Nested, Hist::NestedRef, Hist::Literal, Hist::Map, Hist::Transposed,
+            Hist::CloneOfPadded, Hist::CloneFromBig, Hist::CloneFromPaddedBig, Hist::ConvRef, Hist::ProductResult, Hist::ScalarResult,
+            Hist::RowsMut,
+        ];
+        // every amount of padding (the capacity after the padding path depends on how many items were given)
+        let givens: Vec<usize> = if n <= 16 {
+            (0..n).collect()
+        } else {
+            let mut g = vec![0, 1, n / 4, n / 2 - 1, n / 2, n / 2 + 1, n / 2 + 2, 3 * n / 4, n - 2, n - 1];
+            g.dedup();
+            g
+        };
+        for g in givens {
+            p.push(Hist::Padded(g));
+        }
+        for g in [n / 2 + 1, n.saturating_sub(1)] {
+            if g < n {
+                p.push(Hist::PaddedReshaped(g));
+                p.push(Hist::PaddedSwapped(g));
+            }
+        }
+        p
+    }
+}
+
+const FORMS: [&str; 4] = ["oo", "or", "ro", "rr"];
+fn form_text(f: &str) -> &'static str {
+    match f {
+        "oo" => "a * b",
+        "or" => "a * &b",
+        "ro" => "&a * b",
+        _ => "&a * &b",
+    }
+}
+
+/// all four operator forms and the checked product on the ORIGINAL objects of every history pair: the result must
+/// be `plain` (what the operands built by full() + writes gave; for conforming float operands any value inside the
+/// rounding bound of the statement)
+fn history_sweep<T: Elem>(a: &Grid<T>, b: &Grid<T>, plain_op: Option<&Grid<T>>, plain_dot: &str) -> Result<(), String> {
+    let conforming = a.w == b.h;
+    let acceptable = |got: &Grid<T>, plain: &Grid<T>| *got == *plain || (conforming && !T::IS_INT && a.is_product(b, got));
+    let cheap = a.h * a.w * b.w.max(1) > 1500 || b.h * b.w > 400;
+    let pbs: Vec<Hist> = b.plans(false, cheap).into_iter().filter(|p| b.build(*p).is_some()).collect();
+    for pa in a.plans(true, cheap) {
+        if a.build(pa).is_none() {
+            continue;
+        }
+        for &pb in &pbs {
+            if pa == Hist::Full && pb == Hist::Full {
+                continue; // the printed observation
+            }
+            let fresh = || (a.build_raw(pa).unwrap(), b.build_raw(pb).unwrap());
+            let how = || format!("the left operand built by {pa:?} and the right one by {pb:?} (the original objects, not clones of them)");
+            // checked product
+            let (x, y) = fresh();
+            match catch(|| x.dot(&y)) {
+                None => return Err(format!("the checked product panics with {}", how())),
+                Some(r) => {
+                    let s = show_dot(&r);
+                    let ok = s == plain_dot
+                        || match (&r, plain_op) {
+                            (Ok(m), Some(p)) if plain_dot.starts_with("ok") => acceptable(&Grid::of_arr(m), p),
+                            _ => s.starts_with("err dotshape") && plain_dot.starts_with("err dotshape"),
+                        };
+                    if !ok {
+                        return Err(format!("the checked product depends on the history of its operands: {s} with {}, but {plain_dot} for the same values built by full() + writes", how()));
+                    }
+                    if x.shape() != (a.h, a.w) || !Grid::of_arr(&x).identical(a) || !Grid::of_arr(&y).identical(b) {
+                        return Err(format!("the checked product changed an operand ({})", how()));
+                    }
+                }
+            }
+            let Some(plain) = plain_op else { continue };
+            for form in FORMS {
+                let (x, y) = fresh();
+                let r = catch(move || match form {
+                    "oo" => x * y,
+                    "or" => x * &y,
+                    "ro" => &x * y,
+                    _ => &x * &y,
+                });
+                match r {
+                    None => return Err(format!("`{}` panics with {}", form_text(form), how())),
+                    Some(m) => {
+                        let g = Grid::of_arr(&m);
+                        if acceptable(&g, plain) && m.size() != g.h * g.w {
+                            return Err(format!("`{}` with {} returns a {}x{} array whose size() is {}", form_text(form), how(), g.h, g.w, m.size()));
+                        }
+                        if !acceptable(&g, plain) {
+                            return Err(format!(
+                                "`{}` depends on the history of its operands: {} with {}, but {} for the same values built by full() + writes",
+                                form_text(form), g.show(), how(), plain.show()
+                            ));
+                        }
+                    }
+                }
+            }
+        }
+    }
+    // the same OBJECT on both sides (equal values are not the same thing as one object)
+    if a.identical(b) {
+        let x = a.to_arr();
+        let r = catch(|| (x.dot(&x), &x * &x));
+        match r {
+            None => return Err("a.dot(&a) / &a * &a panics".into()),
+            Some((d, m)) => {
+                let s = show_dot(&d);
+                let same_dot = s == plain_dot || matches!((&d, plain_op), (Ok(m), Some(p)) if plain_dot.starts_with("ok") && acceptable(&Grid::of_arr(m), p));
+                if !same_dot {
+                    return Err(format!("a.dot(&a) (one object on both sides) gives {s}, two equal objects give {plain_dot}"));
+                }
+                if let Some(p) = plain_op {
+                    if !acceptable(&Grid::of_arr(&m), p) {
+                        return Err(format!("&a * &a (one object on both sides) gives {}, two equal objects give {}", Grid::of_arr(&m).show(), p.show()));
+                    }
+                }
+            }
+        }
+    }
+    Ok(())
+}
+
+/// the operator results of the plainly built operands, one per form (they must agree before the sweep makes sense)
+fn plain_forms<T: Elem>(a: &Grid<T>, b: &Grid<T>) -> Result<Grid<T>, String> {
+    let mut first: Option<Grid<T>> = None;
+    for form in FORMS {
+        let (x, y) = (a.to_arr(), b.to_arr());
+        let r = catch(move || match form {
+            "oo" => x * y,
+            "or" => x * &y,
+            "ro" => &x * y,
+            _ => &x * &y,
+        });
+        let Some(m) = r else { return Err(format!("`{}` panics", form_text(form))) };
+        let g = Grid::of_arr(&m);
+        match &first {
+            None => first = Some(g),
+            Some(f) if *f == g || (a.w == b.h && !T::IS_INT && a.is_product(b, &g) && a.is_product(b, f)) => {}
+            Some(f) => return Err(format!("the operator forms disagree: `a * b` gives {} but `{}` gives {}", f.show(), form_text(form), g.show())),
+        }
+    }
+    Ok(first.unwrap())
+}
+
 fn show_dot<T: Elem>(r: &Result<Arr2D<T>, Arr2DError>) -> String {
     match r {
         Ok(m) => format!("ok {}", Grid::of_arr(m).show()),
@@ -286,7 +663,20 @@ fn run_ty<T: Elem>(cmd: &str, t: &mut Toks) -> Obs {
             let (aa, bb) = (a.to_arr(), b.to_arr());
             match catch(|| aa.dot(&bb)) {
                 None => Obs::with("panic".into(), Err("checked product panicked".into())),
-                Some(r) => Obs::with(show_dot(&r), dot_oracle(&a, &b, &r)),
+                Some(r) => {
+                    let verdict = dot_oracle(&a, &b, &r).and_then(|_| {
+                        // oracle only: the operator forms on the same operands, then operands of every history
+                        let p = plain_forms(&a, &b)?;
+                        match &r {
+                            Ok(c) if Grid::of_arr(c) == p || (a.w == b.h && !T::IS_INT && a.is_product(&b, &p)) => {}
+                            Ok(c) => return Err(format!("operator gives {} but the checked product {}", p.show(), Grid::of_arr(c).show())),
+                            Err(_) if p.h * p.w == 0 && p.v.is_empty() => {}
+                            Err(_) => return Err(format!("the checked product is refused but the operator returns a {}x{} matrix", p.h, p.w)),
+                        }
+                        history_sweep(&a, &b, Some(&p), &show_dot(&r))
+                    });
+                    Obs::with(show_dot(&r), verdict)
+                }
             }
         }
         "mul" => {
@@ -339,6 +729,15 @@ fn run_ty<T: Elem>(cmd: &str, t: &mut Toks) -> Obs {
                             _ => Ok(()),
                         }
                     });
+                    // oracle only: the other three forms, then operands of every history moved into every form
+                    let verdict = verdict.and_then(|_| {
+                        let p = plain_forms(&a, &b)?;
+                        if !(p == g || (a.w == b.h && !T::IS_INT && a.is_product(&b, &p))) {
+                            return Err(format!("the operator forms disagree: `{}` gives {} but `a * b` gives {}", form_text(form), g.show(), p.show()));
+                        }
+                        let plain_dot = checked.as_ref().map(show_dot).unwrap_or_default();
+                        history_sweep(&a, &b, Some(&p), &plain_dot)
+                    });
                     Obs::with(g.show(), verdict)
                 }
             }
@@ -349,17 +748,50 @@ fn run_ty<T: Elem>(cmd: &str, t: &mut Toks) -> Obs {
             let s = T::read(t);
             let aa = a.to_arr();
             let is_mul = cmd == "smul";
-            let r = catch(move || match (is_mul, own) {
-                (true, "r") => &aa * s,
-                (true, _) => aa * s,
-                (false, "r") => &aa / s,
-                (false, _) => aa / s,
-            });
+            let apply = move |x: Arr2D<T>, own: &str| match (is_mul, own) {
+                (true, "r") => &x * s,
+                (true, _) => x * s,
+                (false, "r") => &x / s,
+                (false, _) => x / s,
+            };
+            let r = catch(move || apply(aa, own));
+            // oracle only: the same operation on operands of every history, both ownership forms
+            let sweep = |plain: Option<&Grid<T>>| -> Result<(), String> {
+                for pa in a.plans(true, a.h * a.w > 400) {
+                    for own2 in ["r", "o"] {
+                        let Some(x) = a.build(pa) else { continue };
+                        let got = catch(move || apply(x, own2)).map(|m| (m.size(), Grid::of_arr(&m)));
+                        let ok = match (&got, plain) {
+                            (None, None) => true,
+                            (Some((size, g)), Some(p)) => g == p && *size == p.h * p.w,
+                            _ => false,
+                        };
+                        if let (Some((size, g)), Some(p)) = (&got, plain) {
+                            if g == p && *size != p.h * p.w {
+                                return Err(format!(
+                                    "the scalar operator ({}) on the array built by {pa:?} returns a {}x{} array whose size() is {size}",
+                                    if own2 == "r" { "borrowed" } else { "owned" }, g.h, g.w
+                                ));
+                            }
+                        }
+                        if !ok {
+                            return Err(format!(
+                                "the scalar operator ({}) depends on the history of its operand: {} for the array built by {pa:?}, {} for the same values built by full() + writes",
+                                if own2 == "r" { "borrowed" } else { "owned" },
+                                got.map(|(_, g)| g.show()).unwrap_or("panic".into()),
+                                plain.map(|g| g.show()).unwrap_or("panic".into())
+                            ));
+                        }
+                    }
+                }
+                Ok(())
+            };
             match r {
                 None => {
                     // integer division by zero is the only documented panic
                     let expected = !is_mul && s == T::default() && T::IS_INT && a.h * a.w > 0;
-                    Obs::with("panic".into(), if expected { Ok(()) } else { Err("scalar operator panicked".into()) })
+                    let verdict = if expected { Ok(()) } else { Err("scalar operator panicked".into()) };
+                    Obs::with("panic".into(), verdict.and_then(|_| sweep(None)))
                 }
                 Some(m) => {
                     let g = Grid::of_arr(&m);
@@ -373,7 +805,7 @@ fn run_ty<T: Elem>(cmd: &str, t: &mut Toks) -> Obs {
                         Some(want) if g == want => Ok(()),
                         Some(want) => Err(format!("scalar operator is not elementwise: got {} want {}", g.show(), want.show())),
                     };
-                    Obs::with(g.show(), verdict)
+                    Obs::with(g.show(), verdict.and_then(|_| sweep(Some(&g))))
                 }
             }
         }
@@ -381,7 +813,18 @@ fn run_ty<T: Elem>(cmd: &str, t: &mut Toks) -> Obs {
             let a = Grid::<T>::read(t);
             let aa = a.to_arr();
             let g = Grid::of_arr(&aa.transpose());
-            Obs::with(g.show(), if g == a.transposed() { Ok(()) } else { Err("transpose wrong".into()) })
+            let mut verdict = if g == a.transposed() { Ok(()) } else { Err("transpose wrong".to_string()) };
+            if verdict.is_ok() {
+                for pa in a.plans(true, a.h * a.w > 400) {
+                    let Some(x) = a.build(pa) else { continue };
+                    let t = catch(|| Grid::of_arr(&x.transpose()));
+                    if t.as_ref() != Some(&g) {
+                        verdict = Err(format!("transpose of the array built by {pa:?} gives {:?}, the same values built by full() + writes give {}", t.map(|t| t.show()), g.show()));
+                        break;
+                    }
+                }
+            }
+            Obs::with(g.show(), verdict)
         }
         "assoc" | "tprod" | "ident" => {
             let a = Grid::<T>::read(t);
@@ -713,6 +1156,9 @@ pub fn generate(seed: u64, thorough: bool, emit: &mut dyn FnMut(String)) {
         let form = ["rr", "oo", "or", "ro"][rng.below(4) as usize];
         emit(format!("mul f {form} {} {}", req_mat_f(m, k, &af), req_mat_f(k, n, &bf)));
     }
+    history_family(&mut rng, thorough, emit);
+    duplicates_family(&mut rng, thorough, emit);
+    near_structure_family(&mut rng, thorough, emit);
     // laws on random (mostly conforming) triples
     let n_laws = if thorough { 20000 } else { 1500 };
     for _ in 0..n_laws {
@@ -741,6 +1187,239 @@ pub fn generate(seed: u64, thorough: bool, emit: &mut dyn FnMut(String)) {
             emit(format!("assoc {ty} {} {} {}", req_mat_f(h1, w1, &af), req_mat_f(h2, w2, &bf), req_mat_f(h3, w3, &cf)));
             emit(format!("tprod {ty} {} {}", req_mat_f(h1, w1, &af), req_mat_f(h2, w2, &bf)));
             emit(format!("assoc j {} {} {}", req_mat_i(h1, w1, &a), req_mat_i(h2, w2, &b), req_mat_i(h3, w3, &c)));
+        }
+    }
+}
+
+
+/// G. OBJECT HISTORY.  Every `dot` / `mul` / `smul` / `sdiv` / `transpose` request is repeated by `run` on operands of
+/// every construction history (see `Hist`); whether a history matters to an implementation depends on the shape
+/// relation (a product written into the buffer of a consumed operand fits for n <= k, needs spare capacity for
+/// k < n < 2k ...), so beyond the exhaustive 0..5 sweep: every (k, n) in 2..8 x 1..10 with a few heights, all element types
+fn history_family(rng: &mut Rng, thorough: bool, emit: &mut dyn FnMut(String)) {
+    for m in if thorough { vec![1usize, 2, 3, 4, 6, 7] } else { vec![2usize, 3, 6] } {
+        for k in 2..=8usize {
+            for n in 1..=10usize {
+                let form = FORMS[(m + k + n) % 4];
+                let a = fill_i(rng, m, k, 1);
+                let b = fill_i(rng, k, n, 1);
+                emit(format!("mul i {form} {} {}", req_mat_i(m, k, &a), req_mat_i(k, n, &b)));
+                if (m + k + n) % 3 == 0 || thorough {
+                    let af = fill_f(rng, m, k);
+                    let bf = fill_f(rng, k, n);
+                    emit(format!("mul f {form} {} {}", req_mat_f(m, k, &af), req_mat_f(k, n, &bf)));
+                }
+                if (m + k + n) % 5 == 0 || thorough {
+                    let ty = ["j", "b"][(k + n) % 2];
+                    let lo = if ty == "b" { 0 } else { -3 };
+                    let a: Vec<i64> = (0..m * k).map(|_| rng.range(lo, 3)).collect();
+                    let b: Vec<i64> = (0..k * n).map(|_| rng.range(lo, 3)).collect();
+                    emit(format!("mul {ty} {form} {} {}", req_mat_i(m, k, &a), req_mat_i(k, n, &b)));
+                    let a = fill_g(rng, m, k);
+                    let b = fill_g(rng, k, n);
+                    emit(format!("mul g {form} {} {}", req_mat_f(m, k, &a), req_mat_f(k, n, &b)));
+                }
+            }
+        }
+    }
+    // non-conforming and 1x1 operands of the same sizes (an owned form must not leave a half-written buffer behind)
+    for k in 2..=6usize {
+        for n in 1..=8usize {
+            let a = fill_i(rng, 2, k, 1);
+            let b = fill_i(rng, k + 1, n, 1);
+            emit(format!("mul i oo {} {}", req_mat_i(2, k, &a), req_mat_i(k + 1, n, &b)));
+            emit(format!("mul i oo 1 1 {} {}", rng.range(-4, 4), req_mat_i(k, n, &b[..k * n])));
+            emit(format!("mul i oo {} 1 1 {}", req_mat_i(2, k, &a), rng.range(-4, 4)));
+        }
+    }
+}
+
+/// I. DUPLICATES AND IDENTITY VS EQUALITY: both operands equal (then `run` also uses ONE object on both sides), the
+/// right operand the transpose of the left one, constant matrices, repeated rows / columns, a second operand equal
+/// to the first in all but one position - for code that compares values where it should compare positions or shapes
+fn duplicates_family(rng: &mut Rng, thorough: bool, emit: &mut dyn FnMut(String)) {
+    let reps = if thorough { 12 } else { 2 };
+    for n in 1..=7usize {
+        for rep in 0..reps {
+            let form = FORMS[(n + rep) % 4];
+            let a = fill_i(rng, n, n, (rep % 2) as u64);
+            let g = Grid::<i64> { h: n, w: n, v: a.clone() };
+            let at = g.transposed().v;
+            let ma = req_mat_i(n, n, &a);
+            emit(format!("dot i {ma} {ma}"));
+            emit(format!("mul i {form} {ma} {ma}"));
+            emit(format!("dot i {ma} {}", req_mat_i(n, n, &at)));
+            emit(format!("mul i {form} {} {ma}", req_mat_i(n, n, &at)));
+            emit(format!("assoc i {ma} {ma} {ma}"));
+            emit(format!("tprod i {ma} {ma}"));
+            // equal in all but one position
+            if n >= 2 {
+                let mut b = a.clone();
+                let k = rng.below((n * n) as u64) as usize;
+                b[k] += 1;
+                emit(format!("dot i {ma} {}", req_mat_i(n, n, &b)));
+                emit(format!("mul i {form} {} {ma}", req_mat_i(n, n, &b)));
+            }
+            let af = fill_f(rng, n, n);
+            let mf = req_mat_f(n, n, &af);
+            emit(format!("dot f {mf} {mf}"));
+            emit(format!("mul f {form} {mf} {mf}"));
+            let ag = fill_g(rng, n, n);
+            emit(format!("mul g {form} {} {}", req_mat_f(n, n, &ag), req_mat_f(n, n, &ag)));
+        }
+    }
+    for _ in 0..(if thorough { 400 } else { 60 }) {
+        let m = 1 + rng.below(5) as usize;
+        let k = 1 + rng.below(5) as usize;
+        let n = 1 + rng.below(5) as usize;
+        let form = FORMS[rng.below(4) as usize];
+        // non-square: a . a^T and a^T . a
+        let a = fill_i(rng, m, k, 0);
+        let at = Grid::<i64> { h: m, w: k, v: a.clone() }.transposed().v;
+        emit(format!("mul i {form} {} {}", req_mat_i(m, k, &a), req_mat_i(k, m, &at)));
+        emit(format!("dot i {} {}", req_mat_i(k, m, &at), req_mat_i(m, k, &a)));
+        // constant matrices (every entry the same value, also the same in both operands)
+        let c = rng.range(-3, 3);
+        let d = if rng.chance(1, 2) { c } else { rng.range(-3, 3) };
+        emit(format!("dot i {} {}", req_mat_i(m, k, &vec![c; m * k]), req_mat_i(k, n, &vec![d; k * n])));
+        emit(format!("mul i {form} {} {}", req_mat_i(m, k, &vec![c; m * k]), req_mat_i(k, n, &vec![d; k * n])));
+        // constant non-conforming operands (all entries equal does not make a scalar)
+        emit(format!("dot i {} {}", req_mat_i(m, k, &vec![c; m * k]), req_mat_i(k + 1, n, &vec![c; (k + 1) * n])));
+        // repeated rows on the left, repeated columns on the right
+        let row: Vec<i64> = (0..k).map(|_| rng.range(-3, 3)).collect();
+        let mut left: Vec<i64> = Vec::new();
+        for i in 0..m {
+            if i == m / 2 && m > 1 {
+                left.extend((0..k).map(|_| rng.range(-3, 3)));
+            } else {
+                left.extend(&row);
+            }
+        }
+        let col: Vec<i64> = (0..k).map(|_| rng.range(-3, 3)).collect();
+        let mut right = vec![0i64; k * n];
+        for l in 0..k {
+            for j in 0..n {
+                right[l * n + j] = if j == n / 2 && n > 1 { rng.range(-3, 3) } else { col[l] };
+            }
+        }
+        emit(format!("dot i {} {}", req_mat_i(m, k, &left), req_mat_i(k, n, &right)));
+        emit(format!("mul i {form} {} {}", req_mat_i(m, k, &left), req_mat_i(k, n, &right)));
+        // scalar forms on constant / repeated contents, the scalar equal to the entries
+        emit(format!("smul i {} {} {c}", ["r", "o"][m % 2], req_mat_i(m, k, &vec![c; m * k])));
+        emit(format!("sdiv i {} {} {}", ["r", "o"][k % 2], req_mat_i(m, k, &left), if c == 0 { 1 } else { c }));
+        // 1x1 operands whose value equals the entries of the other operand
+        emit(format!("dot i 1 1 {c} {}", req_mat_i(m, k, &vec![c; m * k])));
+        emit(format!("dot i {} 1 1 {c}", req_mat_i(m, k, &vec![c; m * k])));
+    }
+}
+
+/// F. NEAR-STRUCTURE: an exactly structured factor (identity, scalar multiple of it, diagonal, permutation, symmetric,
+/// triangular, all ones) and the same factor with ONE entry moved by a relative 2^-20..2^-45 (a zero entry: by that
+/// much of the largest entry), on either side of a dyadic matrix; integer factors one unit away from the structure;
+/// scalars and 1x1 operands next to 1, -1, 1/2 and 2 at every distance 2^-20..2^-52.  A shortcut that recognises the
+/// structure with a tolerance ("is the identity up to 1e-9": return the other operand) is off by far more than the
+/// rounding bound of the statement.
+fn near_structure_family(rng: &mut Rng, thorough: bool, emit: &mut dyn FnMut(String)) {
+    let structured = |rng: &mut Rng, n: usize, kind: u64| -> Vec<f64> {
+        let mut b = vec![0.0f64; n * n];
+        match kind {
+            0 => (0..n).for_each(|i| b[i * n + i] = 1.0),
+            1 => {
+                let c = *rng.pick(&[2.0f64, -1.0, 0.5, 3.0, -0.25]);
+                (0..n).for_each(|i| b[i * n + i] = c)
+            }
+            2 => (0..n).for_each(|i| b[i * n + i] = rng.range(1, 9) as f64 / 4.0 * if rng.chance(1, 3) { -1.0 } else { 1.0 }),
+            3 => {
+                // permutation
+                let mut p: Vec<usize> = (0..n).collect();
+                for i in (1..n).rev() {
+                    p.swap(i, rng.below(i as u64 + 1) as usize);
+                }
+                (0..n).for_each(|i| b[i * n + p[i]] = 1.0)
+            }
+            4 => {
+                // symmetric, dense
+                for i in 0..n {
+                    for j in i..n {
+                        let v = rng.range(-8, 8) as f64 / 4.0;
+                        b[i * n + j] = v;
+                        b[j * n + i] = v;
+                    }
+                }
+            }
+            5 => {
+                // upper triangular with a unit diagonal
+                for i in 0..n {
+                    for j in i..n {
+                        b[i * n + j] = if i == j { 1.0 } else { rng.range(-8, 8) as f64 / 4.0 };
+                    }
+                }
+            }
+            _ => b.iter_mut().for_each(|x| *x = 1.0),
+        }
+        b
+    };
+    let reps = if thorough { 1500 } else { 160 };
+    for rep in 0..reps {
+        let n = 1 + rng.below(5) as usize;
+        let m = 1 + rng.below(4) as usize;
+        let kind = rep as u64 % 7;
+        let exact = structured(rng, n, kind);
+        let mut near = exact.clone();
+        let dense = kind == 4 || kind == 6;
+        let p = rng.range(20, if dense { 40 } else { 45 }) as i32;
+        let (i, j) = (rng.below(n as u64) as usize, rng.below(n as u64) as usize);
+        let big = exact.iter().fold(0.0f64, |m, x| m.max(x.abs()));
+        let sign = if rng.chance(1, 2) { -1.0 } else { 1.0 };
+        near[i * n + j] = if exact[i * n + j] != 0.0 { exact[i * n + j] * (1.0 + sign * 2f64.powi(-p)) } else { sign * big * 2f64.powi(-p) };
+        // the other factor: small dyadic entries without zeros (every entry of the structured factor matters)
+        let other = |rng: &mut Rng, len: usize| -> Vec<f64> { (0..len).map(|_| rng.range(1, 16) as f64 / 4.0 * if rng.chance(1, 2) { -1.0 } else { 1.0 }).collect() };
+        let a = other(rng, m * n);
+        let c = other(rng, n * m);
+        let form = FORMS[rep % 4];
+        for b in [&near, &exact] {
+            emit(format!("dot f {} {}", req_mat_f(m, n, &a), req_mat_f(n, n, b)));
+            emit(format!("dot f {} {}", req_mat_f(n, n, b), req_mat_f(n, m, &c)));
+        }
+        emit(format!("mul f {form} {} {}", req_mat_f(m, n, &a), req_mat_f(n, n, &near)));
+        emit(format!("mul f {form} {} {}", req_mat_f(n, n, &near), req_mat_f(n, m, &c)));
+        if rep % 4 == 0 {
+            emit(format!("tprod f {} {}", req_mat_f(m, n, &a), req_mat_f(n, n, &near)));
+            emit(format!("dot f {} {}", req_mat_f(n, n, &near), req_mat_f(n, n, &near)));
+        }
+        // integers: one unit away from the identity / a permutation / a diagonal matrix / a symmetric matrix
+        let ei: Vec<i64> = structured(rng, n, [0, 3, 2, 4][rep % 4]).iter().map(|x| (x * 4.0) as i64).collect();
+        let ei: Vec<i64> = if rep % 4 == 0 || rep % 4 == 1 { ei.iter().map(|x| x / 4).collect() } else { ei };
+        let mut ni = ei.clone();
+        ni[i * n + j] += if rng.chance(1, 2) { 1 } else { -1 };
+        let ai = fill_i(rng, m, n, 1);
+        let ci = fill_i(rng, n, m, 1);
+        for b in [&ni, &ei] {
+            emit(format!("dot i {} {}", req_mat_i(m, n, &ai), req_mat_i(n, n, b)));
+            emit(format!("dot i {} {}", req_mat_i(n, n, b), req_mat_i(n, m, &ci)));
+        }
+        emit(format!("mul i {form} {} {}", req_mat_i(m, n, &ai), req_mat_i(n, n, &ni)));
+        emit(format!("mul i {form} {} {}", req_mat_i(n, n, &ni), req_mat_i(n, m, &ci)));
+    }
+    // scalars / 1x1 operands next to 1, -1, 1/2, 2: every distance 2^-20..2^-52 on both sides
+    for p in 20..=52i32 {
+        if !thorough && p % 2 == 1 && p < 47 {
+            continue;
+        }
+        for base in [1.0f64, -1.0, 0.5, 2.0] {
+            for sign in [1.0f64, -1.0] {
+                let sc = base * (1.0 + sign * 2f64.powi(-p));
+                let (h, w) = (1 + rng.below(3) as usize, 1 + rng.below(4) as usize);
+                let a: Vec<f64> = (0..h * w).map(|i| if i == 0 { 1.0 } else if i == 1 { -3.0 } else { rng.range(1, 64) as f64 / 8.0 }).collect();
+                let own = ["r", "o"][(p as usize) % 2];
+                emit(format!("smul f {own} {} {}", req_mat_f(h, w, &a), rbits(sc)));
+                emit(format!("sdiv f {own} {} {}", req_mat_f(h, w, &a), rbits(sc)));
+                if sign > 0.0 || thorough {
+                    emit(format!("dot f 1 1 {} {}", rbits(sc), req_mat_f(h, w, &a)));
+                    emit(format!("dot f {} 1 1 {}", req_mat_f(h, w, &a), rbits(sc)));
+                    emit(format!("mul f {} 1 1 {} {}", FORMS[(p as usize) % 4], rbits(sc), req_mat_f(h, w, &a)));
+                }
+            }
         }
     }
 }
